@@ -8,6 +8,7 @@ import (
 	"fmt"
 	"hash/fnv"
 	"math"
+	"reflect"
 	"sort"
 	"strings"
 	"sync"
@@ -318,6 +319,36 @@ func runCellWord(b Beh, steps []ccStep, cl cell, k int) []J {
 						c.GetValueFromConnection(conn)
 					} else {
 						c.GetValue()
+					}
+				}()
+			case "Rebound":
+				// the application declares another range while the cell holds a value
+				lo, hi, _ := bounds(c)
+				nlo, nhi := lo-1000, hi+1000
+				if s.Cls == "narrow" {
+					q := math.Floor((hi - lo) / 4)
+					nlo, nhi = lo+q, hi-q
+				}
+				func() {
+					defer func() {
+						if r := recover(); r != nil {
+							o["panic"] = true
+						}
+					}()
+					for _, mv := range []struct {
+						name string
+						v    float64
+					}{{"SetMinValue", nlo}, {"SetMaxValue", nhi}} {
+						m := reflect.ValueOf(obj).MethodByName(mv.name)
+						if !m.IsValid() || m.Type().NumIn() != 1 {
+							continue
+						}
+						switch m.Type().In(0).Kind() {
+						case reflect.Int:
+							m.Call([]reflect.Value{reflect.ValueOf(int(mv.v))})
+						case reflect.Float64:
+							m.Call([]reflect.Value{reflect.ValueOf(mv.v)})
+						}
 					}
 				}()
 			case "TypedGet":
